@@ -74,3 +74,150 @@ pub(crate) fn capture(ax: &Axecutor, pre: &Mach) -> Mach {
         mem_acc: acc,
     }
 }
+
+/// Bit i set = Mach::r[i] is named by the instruction (explicit operand, address component
+/// or implicit operand of the operation class). Over-approximates the architectural read and
+/// write sets, which only weakens the determinism precondition, never the check.
+pub(crate) fn named_regs(f: &Fields, op: Op) -> u32 {
+    let mut m: u32 = 1; // RIP
+    let mut n = 0;
+    while n < 4 {
+        if f.k[n] == iced_x86::OpKind::Register {
+            if let Some((i, _, _)) = gpr(f.r[n]) {
+                m |= 1 << i;
+            }
+        }
+        n += 1;
+    }
+    if let Some((i, _, _)) = gpr(f.base) {
+        m |= 1 << i;
+    }
+    if let Some((i, _, _)) = gpr(f.index) {
+        m |= 1 << i;
+    }
+    match op {
+        Op::Mul | Op::Imul1 | Op::Div | Op::Idiv | Op::DivFault | Op::IdivFault | Op::Cdq | Op::Cqo | Op::Cwd | Op::Cdqe => {
+            m |= (1 << RAX_I) | (1 << RDX_I)
+        }
+        Op::Push | Op::Pop | Op::CallRel | Op::CallRm | Op::Ret => m |= 1 << RSP_I,
+        Op::Jrcxz | Op::Jecxz => m |= 1 << RCX_I,
+        Op::Cpuid => m |= (1 << RAX_I) | (1 << RBX_I) | (1 << RCX_I) | (1 << RDX_I),
+        _ => {}
+    }
+    m
+}
+
+/// A second machine that agrees with the first on every explicit input — the registers in
+/// `written` (a symbolic set that contains every register the instruction names), flags,
+/// segment bases, memory, stack_top — and holds independent arbitrary values in every other
+/// general-purpose register (what the constructor's RNG leaves in unwritten registers).
+pub(crate) fn mk_twin(f: &Fields, op: Op, pre: &Mach, stack_top: u64) -> (Axecutor, Mach, u32) {
+    let named = named_regs(f, op);
+    let written: u32 = kani::any::<u32>() & 0x1ffff;
+    kani::assume(written & named == named);
+    let mut b = mk_ax_bare();
+    let mut r = [0u64; 17];
+    let mut i = 0;
+    while i < 17 {
+        r[i] = if written & (1 << i) != 0 { pre.r[i] } else { kani::any::<u64>() };
+        b.state.registers.insert(REG17[i], r[i]);
+        i += 1;
+    }
+    let mut i = 0;
+    while i < 16 {
+        b.state.xmm_registers.insert(XMMS[i], pre.x[i]);
+        i += 1;
+    }
+    b.state.rflags = pre.rflags;
+    b.state.fs = pre.fs;
+    b.state.gs = pre.gs;
+    b.stack_top = stack_top;
+    if pre.mem_on {
+        push_area(&mut b, DBASE, pre.mem.to_vec(), pre.mem_acc);
+    }
+    let mut p = *pre;
+    p.r = r;
+    (b, p, written)
+}
+
+/// Bitmask of differences between two runs that must not differ.
+pub(crate) const T_OUTCOME: u32 = 1;
+pub(crate) const T_REGS: u32 = 2;
+pub(crate) const T_FLAGS: u32 = 4;
+pub(crate) const T_MEM: u32 = 8;
+pub(crate) const T_XMM: u32 = 16;
+pub(crate) const T_TRACE: u32 = 32;
+
+pub(crate) fn twin_diff(
+    ra: &Result<(), crate::helpers::errors::AxError>,
+    rb: &Result<(), crate::helpers::errors::AxError>,
+    a: &Axecutor,
+    b: &Axecutor,
+    pa: &Mach,
+    pb: &Mach,
+    written: u32,
+) -> u32 {
+    let mut bad = 0;
+    let ea = match ra {
+        Ok(()) => 0,
+        Err(e) => {
+            if e.signals_normal_finish {
+                2
+            } else {
+                1
+            }
+        }
+    };
+    let eb = match rb {
+        Ok(()) => 0,
+        Err(e) => {
+            if e.signals_normal_finish {
+                2
+            } else {
+                1
+            }
+        }
+    };
+    if ea != eb {
+        bad |= T_OUTCOME;
+    }
+    let mut i = 0;
+    while i < 17 {
+        if written & (1 << i) != 0 && pa.r[i] != pb.r[i] {
+            bad |= T_REGS;
+        }
+        i += 1;
+    }
+    let mut i = 0;
+    while i < 16 {
+        if pa.x[i] != pb.x[i] {
+            bad |= T_XMM;
+        }
+        i += 1;
+    }
+    if pa.rflags != pb.rflags || pa.fs != pb.fs || pa.gs != pb.gs {
+        bad |= T_FLAGS;
+    }
+    let mut i = 0;
+    while i < DLEN {
+        if pa.mem[i] != pb.mem[i] {
+            bad |= T_MEM;
+        }
+        i += 1;
+    }
+    if a.state.trace.len() != b.state.trace.len()
+        || a.state.call_stack.len() != b.state.call_stack.len()
+        || a.state.executed_instructions_count != b.state.executed_instructions_count
+        || a.state.finished != b.state.finished
+    {
+        bad |= T_TRACE;
+    } else {
+        if a.state.trace.len() == 1 && a.state.trace[0] != b.state.trace[0] {
+            bad |= T_TRACE;
+        }
+        if a.state.call_stack.len() == 1 && a.state.call_stack[0] != b.state.call_stack[0] {
+            bad |= T_TRACE;
+        }
+    }
+    bad
+}
